@@ -306,6 +306,15 @@ fn shared_inner(w: &mut World, before: &[Op], file: &FileSpec, sender: u16, betw
         if k0.is_some() && others.iter().any(|k| k.is_none() || *k == k0) {
             return Err(Failure::new("different-files-share-a-key", format!("{mime} {filename:?}")));
         }
+        // names that only look alike are different names too (a refused name is fine)
+        let swapped: String = reference.filename.chars().map(|c| if c.is_ascii_lowercase() { c.to_ascii_uppercase() } else { c.to_ascii_lowercase() }).collect();
+        let near = [swapped, format!(" {}", reference.filename), format!("{} ", reference.filename), format!("{}\t", reference.filename)];
+        for n in near.iter().filter(|n| **n != reference.filename) {
+            *rep.counters.entry("near-miss-file-names".into()).or_insert(0) += 1;
+            if k0.is_some() && key(&reference.original_hash, &reference.mime_type, n) == k0 {
+                return Err(Failure::new("different-files-share-a-key", format!("{mime}: the names {:?} and {n:?} derive one key", reference.filename)));
+            }
+        }
     }
     Ok(())
 }
@@ -408,7 +417,7 @@ pub fn main(args: &Args) -> i32 {
     let spec = Spec {
         id: "C17",
         level: "exploration",
-        rule: "(1) a member encrypts a generated file (PNG / JPEG made with the image crate so sniffing passes, PDF, text, audio, video, octet-stream; 0 B .. 200 KB in quick, more in thorough; file names with spaces and unicode; MIME spellings with case, parameters and blanks), announces it in a message carrying the imeta tag, then 0..n further operations happen (commits incl. races, adds, removals, deliveries in any order) and everything is offered to everyone. Every client then decrypts from the tag it stored (or from the public reference): members of the sending epoch that hold the announcement - also those removed since - get exactly the sender's plaintext (whose SHA-256 is the published hash), everybody else an error. At the sender a sample of single-bit changes of ciphertext and nonce and changes of file name, MIME type, hash and scheme version must all fail; keys for tuples differing in hash, MIME type or file name differ. (2) group images: prepare_group_image_for_upload (v2) decrypts with the published seed and nonce to the same pixels, single-bit changes of ciphertext / seed / nonce / hash fail (with and without the pinned hash); hand-built v1 blobs decrypt through the fallback and not with another key. Non-trivial = a decryption at another epoch than the sending one, a listed excuse, or a tamper attempt; distinct = distinct cases".into(),
+        rule: "(1) a member encrypts a generated file (PNG / JPEG made with the image crate so sniffing passes, PDF, text, audio, video, octet-stream; 0 B .. 200 KB in quick, more in thorough; file names with spaces and unicode; MIME spellings with case, parameters and blanks), announces it in a message carrying the imeta tag, then 0..n further operations happen (commits incl. races, adds, removals, deliveries in any order) and everything is offered to everyone. Every client then decrypts from the tag it stored (or from the public reference): members of the sending epoch that hold the announcement - also those removed since - get exactly the sender's plaintext (whose SHA-256 is the published hash), everybody else an error. At the sender a sample of single-bit changes of ciphertext and nonce and changes of file name, MIME type, hash and scheme version must all fail; keys for tuples differing in hash, MIME type or file name (also names differing only in ASCII case or surrounding blanks) differ. (2) group images: prepare_group_image_for_upload (v2) decrypts with the published seed and nonce to the same pixels, single-bit changes of ciphertext / seed / nonce / hash fail (with and without the pinned hash); hand-built v1 blobs decrypt through the fallback and not with another key. Non-trivial = a decryption at another epoch than the sending one, a listed excuse, or a tamper attempt; distinct = distinct cases".into(),
         assumptions: vec![
             "the expected plaintext is what the sender itself decrypts right after encrypting (images are sanitised by the library), cross-checked against the published hash".into(),
             "payload sizes are bounded (quick 200 KB, thorough 2 MB) to keep the case rate up".into(),
